@@ -189,8 +189,8 @@ pub fn case_json(mat: &Mat, p: f64, kind: &str, step: Option<usize>, o: &QueryOu
     m.insert(
         "rust_repro".into(),
         json!(format!(
-            "let pssm = ScoringMatrix::<Dna>::new(Background::from_counts(&GenericArray::from({:?})).unwrap(), DenseMatrix::from_rows({:?})); let mut t = TfmPvalue::new(&pssm); for it in t.approximate_score({:?}) {{ println!(\"{{:?}}\", it); }}",
-            mat.bg_counts, mat.rows, p
+            "let pssm = ScoringMatrix::<Dna>::new(Background::from_counts(&GenericArray::from({:?})).unwrap(), DenseMatrix::from_rows({})); let mut t = TfmPvalue::new(&pssm); for it in t.approximate_score({:?}) {{ println!(\"{{:?}}\", it); }}",
+            mat.bg_counts, mat.rust_rows(), p
         )),
     );
     v
@@ -237,7 +237,11 @@ pub fn run(ctx: &mut Ctx, rep: &mut Report) {
                 rep.violation(f.sig.clone(), f.msg.clone(), || case_json(&e.mat, p, kind, f.step, &o));
             }
             if e.mat.width() == 3 && kind.starts_with("geometric") && qi > 10 {
-                rep.sample_space(2, || case_json(&e.mat, p, kind, None, &o));
+                rep.sample_space(2, || {
+                    let mut v = case_json(&e.mat, p, kind, None, &o);
+                    v["oracle"] = json!({"words_enumerated": ex.words, "letters": ex.letters, "distinct_scores": ex.scores.len()});
+                    v
+                });
             }
             if qi % 64 == 63 && ctx.out_of_time() {
                 break;
